@@ -39,9 +39,23 @@ async def input_field_value_coercer(
     """
     if is_invalid_value(value):
         if input_field.default_value is not None:
-            return await input_field.literal_coercer(
+            default_result = await input_field.literal_coercer(
                 parent_node, input_field.default_value, ctx
             )
+            if not default_result.errors and is_invalid_value(
+                default_result.value
+            ):
+                return CoercionResult(
+                    errors=[
+                        coercion_error(
+                            f"Field < {path} > of type "
+                            f"< {input_field.gql_type} > got invalid default "
+                            "value",
+                            node,
+                        )
+                    ]
+                )
+            return default_result
         if input_field.graphql_type.is_non_null_type:
             return CoercionResult(
                 errors=[
